@@ -153,7 +153,8 @@ func arrayHasSuffix(suffix rel.Value, subject rel.Array) (rel.Value, error) {
 	suffixVals := suffixArray.Values()
 	suffixOffset := suffixArray.Count() - 1
 
-	for _, val := range subjectVals[subject.Count()-1:] {
+	for i := len(subjectVals) - 1; i >= 0; i-- {
+		val := subjectVals[i]
 		if suffixOffset > -1 && val.Equal(suffixVals[suffixOffset]) {
 			suffixOffset--
 			if suffixOffset == -1 {
